@@ -1315,6 +1315,41 @@ static void layout_case(uint64_t idx, void *arg)
                                         if (!(vbi3_raw_decoder_services((vbi3_raw_decoder *) rd.pattern) & p->id)) vbi_raw_decoder_add_services(&rd, p->id, 0);   /* an invalid intermediate layout drops the services */
                                 }
                         }
+                        /* debug mode (sampling points are stored per scan line) across a reconfiguration to another number of scan
+                         * lines: vbi3_raw_decoder_set_sampling_par() from a one-line layout to this one and back (seed C05-10: the
+                         * per-line point arrays kept the old line count, decode wrote behind them) */
+                        if (got3 & p->id) {
+                                vbi_raw_decoder small = rd;
+                                small.count[0] = c0 ? 1 : 0; small.count[1] = c0 ? 0 : 1;
+                                if (c0) small.start[1] = 0; 
+                                vbi3_raw_decoder *rdd = vbi3_raw_decoder_new((vbi_sampling_par *) &small);
+                                if (rdd) {
+                                        mc_case("raw decoder in debug mode after vbi3_raw_decoder_set_sampling_par(): decode touches memory outside its objects",
+                                                "%s rate=%u spl=%u fmt=%s count=%d,%d -> %d,%d interlaced=%d synchronous=%d", svc_short(p), j->rate, spl, fi->name,
+                                                small.count[0], small.count[1], c0, c1, il, sync);
+                                        vbi3_raw_decoder_add_services(rdd, p->id, 0);
+                                        vbi_bool dbg = vbi3_raw_decoder_debug(rdd, TRUE);
+                                        for (int dir = 0; dir < 3; dir++) {             /* grow, shrink, grow again */
+                                                const vbi_raw_decoder *to = (dir == 1) ? &small : &rd;
+                                                unsigned g = vbi3_raw_decoder_set_sampling_par(rdd, (vbi_sampling_par *) to, 0);
+                                                g = vbi3_raw_decoder_add_services(rdd, p->id, 0);
+                                                int nl = to->count[0] + to->count[1]; size_t isz2 = bpl * nl;
+                                                for (int ln = 0; ln < nl; ln++) { fill_y(YL, spl, FILL_00); place(YL, spl, &tp, 8); y_to_fmt(fi, YL, spl, IMG + ln * bpl); }
+                                                uint8_t *x = mc_exact(IMG, isz2); vbi_sliced *o = mc_exact(NULL, (size_t) nl * sizeof(vbi_sliced));
+                                                unsigned n = (g & p->id) ? vbi3_raw_decoder_decode(rdd, o, nl, x) : 0;
+                                                if (n > (unsigned) nl) mc_violation("vbi3_raw_decoder_decode returns more records than max_lines", "%s debug mode count=%d,%d returned %u", svc_short(p), to->count[0], to->count[1], n);
+                                                if (dbg && n) {
+                                                        vbi3_bit_slicer_point pt;
+                                                        for (int row = 0; row < nl; row++) (void) vbi3_raw_decoder_sampling_point(rdd, &pt, row, 0);
+                                                        mc_count("debug_reconfigured_decodes_with_points", 1);
+                                                }
+                                                mc_count("evaluations", 1); mc_count(dbg ? "debug_reconfigured_decodes" : "debug_reconfigured_decodes_format_without_debug_support", 1);
+                                                if (n) mc_count("debug_reconfigured_records", n);
+                                                free(o); free(x);
+                                        }
+                                        vbi3_raw_decoder_delete(rdd);
+                                }
+                        }
                         mc_count("layouts_admitted", 1);
                 } else mc_count("layouts_refused", 1);
                 if (rd3) vbi3_raw_decoder_delete(rd3);
@@ -1354,6 +1389,50 @@ static void analytic_map(void)
 
 /* ------------------------------------------------------------------ main */
 
+/* ------------------------------------------------------------------ phase: legacy slicer, lines shorter than the signal */
+
+/* vbi_bit_slicer_init() returns void: every raw_samples value is admissible, also a line shorter than the signal
+ * (fewer samples than FRC + payload need).  The slicer then must find nothing and read nothing beyond raw_samples
+ * (seed C05-9: the two clamps of cri_bytes merged in the wrong order, a negative count looped as unsigned).
+ * Every length 1 .. reach + 8 x service x rate x quick pixel formats x 4 fills + hard square wave, exact heap block. */
+struct shjob { int svc; unsigned rate; };
+static struct shjob *SJ; static uint64_t nsj;
+static void shortline_case(uint64_t idx, void *arg)
+{
+        const _vbi_service_par *p = SVC[SJ[idx].svc]; unsigned rate = SJ[idx].rate;
+        uint64_t ev = 0;
+        int nf = mc_tier == MC_THOROUGH ? NFMT_ALL : NFMT_QUICK;
+        static uint8_t y[MAXSPL], lb[MAXSPL * 4];
+        for (int f = 0; f < nf; f++) {
+                const struct fmtinfo *fi = &FM[f];
+                vbi_bit_slicer probe;
+                vbi_bit_slicer_init(&probe, 2048, rate, p->cri_rate, p->bit_rate, p->cri_frc, p->cri_frc_mask, p->cri_bits, p->frc_bits, p->payload, p->modulation, fi->f);
+                unsigned nbits = probe.frc_bits + (probe.endian >= 2 ? probe.payload : probe.payload * 8);
+                long reach = ((probe.phase_shift + (long)(nbits - 1) * probe.step) >> 8) + 1;
+                long maxl = reach + 8; if (maxl > MAXSPL) maxl = MAXSPL;
+                for (long L = 1; L <= maxl; L++) {
+                        for (int fill = 0; fill <= NFILL; fill++) {
+                                if (fill == NFILL) { unsigned half = rate / (2 * p->cri_rate) ? rate / (2 * p->cri_rate) : 1; for (long i = 0; i < L; i++) y[i] = ((i / half) & 1) ? 0xFF : 0x00; }
+                                else fill_y(y, (int) L, fill);
+                                y_to_fmt(fi, y, (int) L, lb);
+                                vbi_bit_slicer bs;
+                                mc_case("legacy vbi_bit_slice: line shorter than the signal, read past raw_samples",
+                                        "%s rate=%u fmt=%s raw_samples=%ld (signal needs %ld) fill=%s", svc_short(p), rate, fi->name, L, reach, fill == NFILL ? "square wave at the CRI rate" : fill_name[fill]);
+                                vbi_bit_slicer_init(&bs, (int) L, rate, p->cri_rate, p->bit_rate, p->cri_frc, p->cri_frc_mask, p->cri_bits, p->frc_bits, p->payload, p->modulation, fi->f);
+                                uint8_t *blk = mc_exact(lb, (size_t) L * fi->bpp);
+                                uint8_t out[64 + 8]; memset(out, 0xC3, sizeof out);
+                                vbi_bit_slice(&bs, blk, out);
+                                for (int i = 64; i < 72; i++) if (out[i] != 0xC3) mc_violation("legacy vbi_bit_slice: writes past the payload buffer", "%s raw_samples=%ld", svc_short(p), L);
+                                free(blk);
+                                ev++;
+                        }
+                }
+        }
+        mc_count("evaluations", ev); mc_count("legacy_short_line_decodes", ev);
+        mc_distinct(0x5107000000ull + idx);
+        if (idx == 0) mc_sample("legacy-short-lines: %s at %u Hz, every raw_samples 1..reach+8, %d pixel formats, 5 line contents, exactly sized heap block", svc_short(p), rate, nf);
+}
+
 int main(int argc, char **argv)
 {
         mc_init(argc, argv, "C05");
@@ -1377,7 +1456,7 @@ int main(int argc, char **argv)
         mc_meta("bound", "%d service rows x fine rate grid (%llu (service,rate) pairs, admission minimum .. 40 MHz, %s ladder + named capture rates + low-pass threshold +-1 Hz%s) x samples_per_line {min, min+7, 2048; thorough also min+1, next multiple of 720} x %d pixel formats x sample_offset {0,3}: no-CRI lines + limit window; coarse grid (%s capture rates + admission minimum + low-pass threshold): every template position and every 0x00->0xFF step position; images: 1 and 3 lines per field, sequential/interlaced, synchronous or not, unknown line numbers, last line in memory carries the late signal, max_lines {0,1,D-1,D}; buffer_size 1..payload bytes; sampling point arrays with blank 2048 sample lines; admitted layouts: every (count[0], count[1]) in 0..3 x 0..3 (equal, unequal, one field), interlaced/sequential, synchronous or not, line numbers known/unknown - whatever add_services admits is decoded from an exactly sized image (blank, white, signal on every line)",
                 nsvc, (unsigned long long) fine_rates, mc_tier == MC_THOROUGH ? "250 kHz" : "2 MHz", mc_tier == MC_THOROUGH ? " + 0/+-12.5 kHz around every integer samples-per-bit rate" : "",
                 mc_tier == MC_THOROUGH ? NFMT_ALL : NFMT_QUICK, mc_tier == MC_THOROUGH ? "9" : "4");
-        mc_meta("assume", "sampling rates above 40 MHz and PAL8 are not enumerated; the legacy slicer is only configured with raw_samples that vbi3_bit_slicer_set_params admits");
+        mc_meta("assume", "sampling rates above 40 MHz and PAL8 are not enumerated; in the grid phases the legacy slicer is only configured with raw_samples that vbi3_bit_slicer_set_params admits; phase legacy-short-lines gives it every shorter line");
         mc_meta("assume", "image content only selects the CRI-search iteration at which CRI/FRC are recognised; read addresses are a function of that iteration and the configuration (checked: the measured extent never exceeds the analytic worst case, see outcomes)");
 
         if (!mc_replaying) analytic_map();
@@ -1430,6 +1509,13 @@ int main(int argc, char **argv)
                                 LJOBS[nljobs].svc = s; LJOBS[nljobs].rate = RATES[s][k]; LJOBS[nljobs].fi = f ? 1 : 0; nljobs++;
                         }
                 mc_pool("admitted-layouts", nljobs, layout_case, NULL, 120);
+
+                SJ = calloc((uint64_t) nsvc * MAXRATES, sizeof *SJ);
+                for (int k = 0; k < MAXRATES; k++) for (int s = 0; s < nsvc; s++) if (k < nrates[s]) {
+                        if (mc_tier != MC_THOROUGH && k > 2) continue;
+                        SJ[nsj].svc = s; SJ[nsj].rate = RATES[s][k]; nsj++;
+                }
+                mc_pool("legacy-short-lines", nsj, shortline_case, NULL, 120);
         }
         return mc_finish();
 }
